@@ -289,6 +289,7 @@ func genValidMsg(t *rapid.T, ti int) sdk.Msg {
 type mutSite struct {
 	path  string
 	apply func(t *rapid.T) string
+	str   *string // current value, for string sites
 }
 
 func mutSites(v reflect.Value, path string, out *[]mutSite) {
@@ -312,7 +313,7 @@ func mutSites(v reflect.Value, path string, out *[]mutSite) {
 	case reflect.String:
 		if v.CanSet() {
 			*out = append(*out, mutSite{path, func(t *rapid.T) string {
-				switch rapid.IntRange(0, 2).Draw(t, "string-edit") {
+				switch rapid.IntRange(0, 4).Draw(t, "string-edit") {
 				case 0:
 					v.SetString(v.String() + "a")
 					return "character appended"
@@ -321,10 +322,29 @@ func mutSites(v reflect.Value, path string, out *[]mutSite) {
 						v.SetString(s[:len(s)-1])
 						return "last character dropped"
 					}
+				case 2:
+					// the value of another string field of the same message (e.g. fee payer := writer)
+					var others []string
+					for _, o := range *out {
+						if o.str != nil && o.path != path && *o.str != "" && *o.str != v.String() {
+							others = append(others, *o.str)
+						}
+					}
+					if len(others) > 0 {
+						v.SetString(rapid.SampledFrom(others).Draw(t, "copied-from"))
+						return "set to the value of another field"
+					}
+				case 3:
+					if v.String() != "" {
+						v.SetString("")
+						return "emptied"
+					}
 				}
 				v.SetString(v.String() + " ")
 				return "blank appended"
-			}})
+			}, nil})
+			cur := v.String()
+			(*out)[len(*out)-1].str = &cur
 		}
 	case reflect.Slice:
 		if v.Type().Elem().Kind() == reflect.Uint8 {
@@ -332,7 +352,7 @@ func mutSites(v reflect.Value, path string, out *[]mutSite) {
 				*out = append(*out, mutSite{path, func(t *rapid.T) string {
 					v.SetBytes(append(append([]byte{}, v.Bytes()...), 0))
 					return "zero byte appended"
-				}})
+				}, nil})
 			}
 			return
 		}
@@ -366,7 +386,7 @@ func mutSites(v reflect.Value, path string, out *[]mutSite) {
 				}
 				v.Set(nv)
 				return "element removed"
-			}})
+			}, nil})
 		}
 		for i := 0; i < v.Len(); i++ {
 			mutSites(v.Index(i), fmt.Sprintf("%s[%d]", path, i), out)
